@@ -84,7 +84,8 @@ inductive Val where
   | date (y m d : Nat)
   | time (h mi s us : Nat)
   | datetime (y m d h mi s us : Nat)
-  | num (text : Str)        -- `Decimal.to_eng_string()` / `repr(float)`: text produced by the stdlib, uninterpreted
+  | num (neg : Bool) (mant : Str) (exp : Option (Nat × Str))
+      -- `repr(float)` / `Decimal.to_eng_string()`: `[-]mantissa[(+|-)exponent]`, the runs uninterpreted (`1.5e`, `07`, `inf`, `NaN`)
   | seq (l : List Val)      -- tuple / list
 
 def Val.isNull : Val → Bool
@@ -94,6 +95,13 @@ def Val.isNull : Val → Bool
 def renderBool (d : Dialect) (b : Bool) : Str :=
   if boolSpecialDialects.contains d then (if b then boolSpecialTrue else boolSpecialFalse)
   else (if b then boolTrue else boolFalse)
+
+def expText : Option (Nat × Str) → Str
+  | some (sg, e) => sg :: e
+  | none => []
+
+def renderNum (neg : Bool) (mant : Str) (exp : Option (Nat × Str)) : Str :=
+  (if neg then [45] else []) ++ mant ++ expText exp
 
 mutual
 /-- `sqlrepr(v, d)` -/
@@ -105,7 +113,7 @@ def render (d : Dialect) : Val → Str
   | .date y m dd => fmt dateFmt [y, m, dd] []
   | .time h mi s us => fmt timeFmt [h, mi, s, us] []
   | .datetime y m dd h mi s us => fmt dateTimeFmt [y, m, dd, h, mi, s, us] []
-  | .num t => t
+  | .num neg mant exp => renderNum neg mant exp
   | .seq l => seqOpen ++ renderSeq d l ++ seqClose
 /-- `", ".join([sqlrepr(v, d) for v in l])` -/
 def renderSeq (d : Dialect) : List Val → Str
@@ -163,6 +171,10 @@ def pgEsc (c : Nat) : Option Nat :=
   else if c = 114 then some 13 else if c = 116 then some 9
   else if c = 120 ∨ c = 117 ∨ c = 85 ∨ c = 39 then none else some c
 
+def isOctHead : Str → Bool
+  | c :: _ => isOct c
+  | [] => false
+
 def octPush (v : Nat) (k : Option (Str × Str)) : Option (Str × Str) :=
   if v % 256 = 0 ∨ 128 ≤ v then none else push [v] k
 
@@ -181,16 +193,16 @@ def lexBody (m : Mode) : Str → Option (Str × Str)
       | e :: cs2 =>
         if m = .mysql then push (mysqlEsc e) (lexBody m cs2)
         else if isOct e then
-          match cs2 with
-          | [] => none
-          | o2 :: cs3 =>
-            if isOct o2 then
-              match cs3 with
-              | [] => none
-              | o3 :: cs4 =>
-                if isOct o3 then octPush (((e - 48) * 8 + (o2 - 48)) * 8 + (o3 - 48)) (lexBody m cs4)
-                else octPush ((e - 48) * 8 + (o2 - 48)) (lexBody m cs3)
-            else octPush (e - 48) (lexBody m cs2)
+          if isOctHead cs2 then
+            match cs2 with
+            | [] => none
+            | o2 :: cs3 =>
+              if isOctHead cs3 then
+                match cs3 with
+                | [] => none
+                | o3 :: cs4 => octPush (((e - 48) * 8 + (o2 - 48)) * 8 + (o3 - 48)) (lexBody m cs4)
+              else octPush ((e - 48) * 8 + (o2 - 48)) (lexBody m cs3)
+          else octPush (e - 48) (lexBody m cs2)
         else
           match pgEsc e with
           | some x => push [x] (lexBody m cs2)
